@@ -72,6 +72,16 @@ def _balanced_end(toks, i):
         i += 1
 
 
+def _is_pub(header):
+    """`pub fn` (not `pub(crate)` / `pub(super)` / `pub(self)` / `pub(in ..)`)"""
+    for j, t in enumerate(header):
+        if t.kind == "ident" and t.text == "pub":
+            return not (j + 1 < len(header) and header[j + 1].text == "(")
+        if t.kind == "ident" and t.text == "fn":
+            return False
+    return False
+
+
 def _kind(header):
     """item keyword of a header (tokens before the body / the `;`)"""
     j = 0
@@ -102,7 +112,7 @@ def _kind(header):
     return "?"
 
 
-def items(toks, i, end, indent, out):
+def items(toks, i, end, indent, out, ctx="mod"):
     """skeleton lines of the items in toks[i:end]"""
     pad = "  " * indent
     while i < end:
@@ -161,15 +171,22 @@ def items(toks, i, end, indent, out):
         # toks[j] is `{`
         k = _balanced_end(toks, j)
         if kind == "fn":
-            if keep:
+            # a private function outside a trait impl is reachable only from function bodies (which the function
+            # translators / pins / the correspondence cover): extracting or renaming such a helper is not a change of
+            # the skeleton.  Methods of trait impls and trait definitions always count (an added method overrides a
+            # provided one), and so does everything `pub`.
+            if keep and (ctx == "trait" or _is_pub(header)):
                 out.extend(alines)
                 out.append(pad + _txt(header) + " {..}")
         elif kind in BLOCK_KINDS:
             if keep:
-                out.extend(alines)
-                out.append(pad + _txt(header) + " {")
-                items(toks, j + 1, k - 1, indent + 1, out)
-                out.append(pad + "}")
+                sub = "trait" if kind == "trait" or (kind == "impl" and any(t.kind == "ident" and t.text == "for" for t in header)) else "mod"
+                inner = items(toks, j + 1, k - 1, indent + 1, [], sub)
+                if inner or not (kind == "impl" and sub == "mod"):      # an inherent impl of private helpers only: not skeleton
+                    out.extend(alines)
+                    out.append(pad + _txt(header) + " {")
+                    out.extend(inner)
+                    out.append(pad + "}")
         else:
             # struct / enum / union / macro_rules / macro call: the whole text
             if keep:
